@@ -10,6 +10,12 @@
     pair <text> <brackets> <delimiter>   parse_pair             → ok <hex>:<hex>,…   | <error>
     deco <text>                          DecoratorHelper._parse → ok <path> <k>=<v>;… <join_args>
     param <text>                         Param.parse            → ok <type> <symbol> <default> | <error>
+    pluck <text> | indexer <text> | cvarnew <text>     PatternParser.pluck_func_call_arguments / break_indexer / pluck_cvar_new
+    range <for_in> <args_num>            Py2Cpp.proc_for_range  → ok <begin> <size> <step>
+    throw <throws>                       Py2Cpp.on_throw        → ok <calls> <hex>,…
+    dictcomp <projection>                Py2Cpp.on_dict_comp    → ok <key> <value>
+    dany <deco> <path,…> | danyargs <deco> <subject>   DecoratorHelper.any / any_args → ok true|false
+    qany <deco,…> <path,…> | qanyargs <deco,…> <subject> | qcontains <deco,…> <path,…>   DecoratorQuery
 -/
 import Tranp.Driver.Common
 import Tranp.Model.Block
@@ -34,6 +40,10 @@ partial def entryStr (e : Entry) : String :=
   s!"({e.begin},{e.end_},{e.depth},{kindStr e.kind}[{"".intercalate (e.entries.map entryStr)}])"
 
 def unhex? (s : String) : Option Str := Str.unhex s
+
+/-- comma-separated hex strings; `.` = the empty list -/
+def unhexList (s : String) : Option (List Str) :=
+  if s = "." then some [] else (s.splitOn ",").mapM Str.unhex
 
 def step (_ : Unit) : List String → Unit × String
   | ["skip", ps, t, b] =>
@@ -102,6 +112,72 @@ def step (_ : Unit) : List String → Unit × String
       | .ok (ty, sym, dv) => ((), s!"ok {Str.hex ty} {Str.hex sym} {Str.hex dv}")
       | .error e => ((), err e)
     | none => ((), "bad-op")
+  | ["pluck", t] =>
+    match unhex? t with
+    | some t => match pluckFuncCallArguments t with
+      | .ok a => ((), s!"ok {Str.hex a}")
+      | .error e => ((), err e)
+    | none => ((), "bad-op")
+  | ["indexer", t] =>
+    match unhex? t with
+    | some t => match breakIndexer t with
+      | .ok (a, b) => ((), s!"ok {Str.hex a} {Str.hex b}")
+      | .error e => ((), err e)
+    | none => ((), "bad-op")
+  | ["cvarnew", t] =>
+    match unhex? t with
+    | some t => match pluckCvarNew t with
+      | .ok (a, b) => ((), s!"ok {Str.hex a} {Str.hex b}")
+      | .error e => ((), err e)
+    | none => ((), "bad-op")
+  | ["range", t, n] =>
+    match unhex? t, n.toNat? with
+    | some t, some n => match forRangeVars t n with
+      | .ok (a, b, c) => ((), s!"ok {Str.hex a} {Str.hex b} {Str.hex c}")
+      | .error e => ((), err e)
+    | _, _ => ((), "bad-op")
+  | ["throw", t] =>
+    match unhex? t with
+    | some t => match throwParts t with
+      | .ok (c, args) => ((), s!"ok {Str.hex c} {hexList args}")
+      | .error e => ((), err e)
+    | none => ((), "bad-op")
+  | ["dictcomp", t] =>
+    match unhex? t with
+    | some t => match dictCompProjection t with
+      | .ok (a, b) => ((), s!"ok {Str.hex a} {Str.hex b}")
+      | .error e => ((), err e)
+    | none => ((), "bad-op")
+  | ["dany", t, ps] =>
+    match unhex? t, unhexList ps with
+    | some t, some ps => match decoAny t ps with
+      | .ok b => ((), s!"ok {b}")
+      | .error e => ((), err e)
+    | _, _ => ((), "bad-op")
+  | ["danyargs", t, sub] =>
+    match unhex? t, unhex? sub with
+    | some t, some sub => match decoAnyArgs t sub with
+      | .ok b => ((), s!"ok {b}")
+      | .error e => ((), err e)
+    | _, _ => ((), "bad-op")
+  | ["qany", ds, ps] =>
+    match unhexList ds, unhexList ps with
+    | some ds, some ps => match queryAny ds ps with
+      | .ok r => ((), "ok " ++ hexList r)
+      | .error e => ((), err e)
+    | _, _ => ((), "bad-op")
+  | ["qanyargs", ds, sub] =>
+    match unhexList ds, unhex? sub with
+    | some ds, some sub => match queryAnyArgs ds sub with
+      | .ok r => ((), "ok " ++ hexList r)
+      | .error e => ((), err e)
+    | _, _ => ((), "bad-op")
+  | ["qcontains", ds, ps] =>
+    match unhexList ds, unhexList ps with
+    | some ds, some ps => match queryContains ds ps with
+      | .ok b => ((), s!"ok {b}")
+      | .error e => ((), err e)
+    | _, _ => ((), "bad-op")
   | _ => ((), "bad-op")
 
 def run : IO Unit := runFamily step ()
